@@ -1150,33 +1150,48 @@ def corr_disagreements(prog, mod, mros, q, names, res, obs=None):
     return out
 
 
-def run(ctx: Ctx):
-    repo_python_path()
-    ctx.rule = ("programs of the mini language (1-6 classes in hierarchies of depth 1-5 with single/multiple inheritance and diamonds, 0-3 functions, "
-                "instance methods, classmethods; bodies with kwargs.pop/get, super().__init__/super(X,self), calls of functions/classes/self methods/cls, "
-                "hard-coded positional and keyword arguments, constant and non-constant conditionals; parameters with shadowing names, six annotations, "
-                "defaults, required and keyword-only) written to real module files; every class/function/classmethod is asked: real resolver vs model "
-                "`resolve`, real interpreter (one call per candidate name and branch selection) vs model `accepts`, and the property itself on the real "
-                "pair; non-trivial = query whose callable takes **kwargs and offers at least one parameter through it; distinct by program+query JSON")
-    ctx.assumptions = [
-        "the generator's renderer is the meaning of the mini language (one python statement per Use)",
-        "method names are unique per hierarchy (no overriding), at most one super() call per body and it is the last forwarding call",
-        "a branch of an if-chain that cannot be executed at all (its callee misses a required argument) is not an observation about acceptance",
-        "`unique`'s hash classes of default values are recomputed by the harness (bool/int/float by hash, str, None, JSON of lists)",
+def exhaustive_family(thorough):
+    """every two/three-class program over a small alphabet: parent (a: int = 0, b: str = 'x') with or without a
+    forwarding **kwargs, child with own parameters, one read of kwargs, super() with hard-coded arguments,
+    optionally a grandchild without own __init__"""
+    import itertools
+
+    def P(name, ty, d, kind="pk"):
+        return {"name": name, "ty": ty, "dflt": ["v", d], "kind": kind}
+
+    parents = [
+        {"params": [P("a", "int", 0), P("b", "str", "x")], "varkw": False, "uses": []},
+        {"params": [P("a", "int", 0), P("b", "str", "x")], "varkw": True, "uses": [{"g": "a", "u": {"super": {"frm": None, "k": 0, "given": []}}}]},
     ]
-    ctx.lean_build(extractors=[])
+    owns = [[], [P("a", "str", "own")], [P("c", "int", 1)], [P("c", "int", 1, "ko"), P("a", "float", 1.5, "ko")]]
+    reads = [None, ("pop", "a", 0), ("pop", "a", 7), ("pop", "b", "x"), ("pop", "z", 1), ("get", "a", 0), ("get", "z", 1)]
+    ks = [0, 1, 2] if thorough else [0, 1]
+    givens = [[], ["a"], ["b"], ["a", "b"]]
+    out = []
+    for par, own, rd, k, gv, grandchild in itertools.product(parents[: 2 if thorough else 1], owns, reads, ks, givens, [False, True]):
+        if any(g in ["a", "b"][:k] for g in gv):
+            continue  # would be "multiple values" whatever the caller passes
+        uses = []
+        if rd is not None:
+            uses.append({"g": "a", "u": {rd[0]: [rd[1], rd[2]]}})
+        uses.append({"g": "a", "u": {"super": {"frm": None, "k": k, "given": gv}}})
+        entries = [
+            {"kind": "cls", "name": "K0", "bases": [], "init": clone(par), "meths": [], "cmeths": []},
+            {"kind": "cls", "name": "K1", "bases": [0], "init": {"params": clone(own), "varkw": True, "uses": uses}, "meths": [], "cmeths": []},
+        ]
+        if grandchild:
+            entries.append({"kind": "cls", "name": "K2", "bases": [1], "init": None, "meths": [], "cmeths": []})
+        out.append({"entries": entries})
+    return out
 
-    from ..lib import corpus as corpus_mod
 
-    progs = [(c["prog"], "corpus:" + c.get("name", "?")) for c in corpus_mod.load(ctx.prop)]
-    n_corpus = len(progs)
-    n_random = ctx.budget(320, 5000) * (2 if ctx.search_boost > 1 else 1)
-    for k in range(n_random):
-        knobs = None
-        if k % 5 == 4:  # a share of programs entirely inside the theorem's hypotheses
-            knobs = {"p_get": 0.0, "p_cond": 0.0, "p_unused": 0.0}
-        progs.append((gen_program(ctx.rng, knobs), "generated"))
+class _Tally:
+    def __init__(self):
+        self.n_dis = self.n_queries = self.n_crash = self.n_uninst = self.n_parser = self.n_wf_queries = self.n_wf_progs = self.n_progs = 0
 
+
+def process(ctx, progs, T, parser_every, is_corpus=False):
+    """correspondence + oracle + parser surface for a batch of (program, origin)"""
     items, loaded = [], []
     for prog, origin in progs:
         mod, mros = prepare(prog)
@@ -1185,25 +1200,26 @@ def run(ctx: Ctx):
         items.append((prog, mros, qs, names))
         loaded.append((prog, origin, mod, mros, qs, names))
     results = model_run(ctx, items)
-
-    n_dis = 0
-    n_queries = n_crash = n_uninst = n_parser = 0
-    feats_seen = {}
     for idx, (prog, origin, mod, mros, qs, names) in enumerate(loaded):
+        T.n_progs += 1
         for ft in features(prog, mros):
             ctx.hist("features", ft)
         ctx.hist("entries", len(prog["entries"]))
-        if idx >= n_corpus and idx < n_corpus + 3:
-            ctx.sample({"source": render(prog)[render(prog).index("class") if "class" in render(prog) else 0:][:1200]})
+        if results is not None:
+            if not results[idx]["acyclic"]:
+                ctx.tie_break("generated program is not acyclic for the model (generator and model disagree on the ordering rules)", render(prog)[:1500])
+            T.n_wf_progs += 1 if results[idx]["wf"] else 0
+        if origin == "generated":
+            src = render(prog)
+            ctx.sample({"source": src[src.index("\n\n\n", 300):][:1200]}, cap=3)
         for qi, q in enumerate(qs):
-            n_queries += 1
+            T.n_queries += 1
             ctx.count(1 + len(names))
             devs, stats, real = judge(prog, mod, mros, q, names)
             if stats["crashed"]:
-                n_crash += 1
+                T.n_crash += 1
             if not stats["instantiable"]:
-                n_uninst += 1
-            top_varkw = False
+                T.n_uninst += 1
             e = prog["entries"][q[1]]
             topc = e["cmeths"][q[2]] if q[0] == "cmeth" else (e["c"] if e["kind"] == "fn" else e["init"])
             if topc is not None and topc["varkw"] and len(real) > len(topc["params"]):
@@ -1212,8 +1228,8 @@ def run(ctx: Ctx):
             if results is not None:
                 dis = corr_disagreements(prog, mod, mros, q, names, results[idx]["results"][qi])
                 if dis:
-                    n_dis += 1
-                    if n_dis <= 3:
+                    T.n_dis += 1
+                    if T.n_dis <= 3:
                         def still(p2, q=q):
                             m2, mr2 = prepare(p2)
                             try:
@@ -1231,9 +1247,12 @@ def run(ctx: Ctx):
                         ctx.violation("model and code disagree (%s): %s" % (dis[0]["side"], dis[0]["what"]),
                                       {"kind": "corr", "prog": small, "q": q, "source": render(small)})
             # ---- property oracle
+            in_theorem = results is not None and results[idx]["wf"] and results[idx]["results"][qi]["out"] == "ok"
+            if in_theorem:
+                T.n_wf_queries += 1
             for d in devs:
-                if d["finding"] and ctx.is_open(d["finding"]):
-                    ctx.known(d["finding"], "%s: %s (e.g. %s of a generated program)" % (d["kind"], d["detail"], "/".join(map(str, q))))
+                if d["finding"] and ctx.is_open(d["finding"]) and not in_theorem:
+                    ctx.known(d["finding"], "%s: %s (e.g. %s of a %s program)" % (d["kind"], d["detail"], "/".join(map(str, q)), origin))
                     continue
 
                 def still_o(p2, q=q, d=d):
@@ -1243,15 +1262,18 @@ def run(ctx: Ctx):
                         return any(x["kind"] == d["kind"] and not (x["finding"] and ctx.is_open(x["finding"])) for x in dv)
                     finally:
                         unload(m2)
-                try:
-                    small = shrink_prog(prog, q, still_o)
-                except Exception:  # noqa: BLE001
-                    small = prog
-                ctx.violation("C13 fails on the real resolver: %s — %s" % (d["kind"], d["detail"]),
-                              {"kind": "oracle", "origin": origin, "prog": small, "q": q, "deviation": d, "source": render(small)})
+                small = prog
+                if not in_theorem and len(ctx.violations) < 5:
+                    try:
+                        small = shrink_prog(prog, q, still_o)
+                    except Exception:  # noqa: BLE001
+                        small = prog
+                ctx.violation("C13 fails on the real resolver%s: %s — %s" % (" for a program inside the hypotheses of C13_exact" if in_theorem else "", d["kind"], d["detail"]),
+                              {"kind": "oracle", "origin": origin, "prog": small, "q": q, "deviation": d,
+                               "source": render(small), "inside_theorem_hypotheses": in_theorem})
             # ---- parser surface (a share of the queries)
-            if (idx + qi) % ctx.budget(3, 2) == 0 or idx < n_corpus:
-                n_parser += 1
+            if is_corpus or (idx + qi) % parser_every == 0:
+                T.n_parser += 1
                 try:
                     parser, added = parser_surface(prog, mod, q)
                 except Exception as ex:  # noqa: BLE001
@@ -1276,6 +1298,45 @@ def run(ctx: Ctx):
                                               {"kind": "parser-instantiate", "prog": prog, "q": q, "error": err, "source": render(prog)})
         unload(mod)
 
+
+def run(ctx: Ctx):
+    repo_python_path()
+    ctx.rule = ("programs of the mini language (1-6 classes in hierarchies of depth 1-5 with single/multiple inheritance and diamonds, 0-3 functions, "
+                "instance methods, classmethods; bodies with kwargs.pop/get, super().__init__/super(X,self), calls of functions/classes/self methods/cls, "
+                "hard-coded positional and keyword arguments, constant and non-constant conditionals; parameters with shadowing names, six annotations, "
+                "defaults, required and keyword-only) written to real module files; every class/function/classmethod is asked: real resolver vs model "
+                "`resolve`, real interpreter (one call per candidate name and branch selection) vs model `accepts`, and the property itself on the real "
+                "pair; non-trivial = query whose callable takes **kwargs and offers at least one parameter through it; distinct by program+query JSON")
+    ctx.assumptions = [
+        "the generator's renderer is the meaning of the mini language (one python statement per Use)",
+        "method names are unique per hierarchy (no overriding), at most one super() call per body and it is the last forwarding call",
+        "a branch of an if-chain that cannot be executed at all (its callee misses a required argument) is not an observation about acceptance",
+        "`unique`'s hash classes of default values are recomputed by the harness (bool/int/float by hash, str, None, JSON of lists)",
+        "C13_exact carries the explicit hypothesis that group_parameters does not raise (resolveOut ≠ crash); the excluded class is the open finding C13-conditional-first-crash",
+    ]
+    ctx.lean_build(extractors=[])
+
+    from ..lib import corpus as corpus_mod
+
+    T = _Tally()
+    parser_every = ctx.budget(3, 2)
+    process(ctx, [(c["prog"], "corpus:" + c.get("name", "?")) for c in corpus_mod.load(ctx.prop)], T, parser_every, is_corpus=True)
+    fam = exhaustive_family(ctx.thorough)
+    ctx.extra["exhaustive_two_class_family"] = len(fam)
+    for i in range(0, len(fam), 400):
+        process(ctx, [(p, "exhaustive-family") for p in fam[i:i + 400]], T, 7)
+    n_random = ctx.budget(700, 9000) * (2 if ctx.search_boost > 1 else 1)
+    done = 0
+    while done < n_random:
+        batch = []
+        for k in range(done, min(done + 400, n_random)):
+            knobs = None
+            if k % 5 == 4:  # a share of programs entirely inside the theorem's hypotheses
+                knobs = {"p_get": 0.0, "p_cond": 0.0, "p_unused": 0.0}
+            batch.append((gen_program(ctx.rng, knobs), "generated"))
+        process(ctx, batch, T, parser_every)
+        done += len(batch)
+
     # --- replay of the catalogued findings --------------------------------
     for f in ctx.open_findings():
         w = f["witness"]
@@ -1288,12 +1349,14 @@ def run(ctx: Ctx):
             ctx.known(f["id"], f["description"])
         else:
             ctx.stale_findings.append(f["id"])
-    ctx.extra["programs"] = len(loaded)
-    ctx.extra["queries"] = n_queries
-    ctx.extra["queries_where_ast_resolver_fell_back"] = n_crash
-    ctx.extra["queries_not_instantiable"] = n_uninst
-    ctx.extra["parser_surface_checked"] = n_parser
-    ctx.extra["correspondence_disagreements"] = n_dis
+    ctx.extra["programs"] = T.n_progs
+    ctx.extra["programs_satisfying_WfProg"] = T.n_wf_progs
+    ctx.extra["queries"] = T.n_queries
+    ctx.extra["queries_inside_C13_exact_hypotheses"] = T.n_wf_queries
+    ctx.extra["queries_where_ast_resolver_fell_back"] = T.n_crash
+    ctx.extra["queries_not_instantiable"] = T.n_uninst
+    ctx.extra["parser_surface_checked"] = T.n_parser
+    ctx.extra["correspondence_disagreements"] = T.n_dis
 
 
 def replay(ctx: Ctx, body):
@@ -1325,4 +1388,6 @@ def replay(ctx: Ctx, body):
         return 1 if err else 0
     devs, _, _ = judge(prog, mod, mros, q, names)
     print("deviations:", devs)
+    if r.get("inside_theorem_hypotheses"):
+        return 1 if devs else 0
     return 1 if any(not (d["finding"] and ctx.is_open(d["finding"])) for d in devs) else 0
